@@ -179,8 +179,9 @@ class World:
         w = self
         counter = {"n": 0}
 
-        async def send_on_connect():
-            # like the API layer's connection subscriber: submit a request as soon as connected
+        def announce_send():
+            """Logged when the subscriber coroutine is CREATED (the socket builds its callback list
+            synchronously): the loop runs tasks in creation order, so this is the submission order."""
             counter["n"] += 1
             cid = f"{who}#{counter['n']}"
             d = dict(sends["msg"])
@@ -190,6 +191,9 @@ class World:
             pol = w._arg(sends["policy"])
             w.ev("call", id=cid, method="send", desc=P.project(msg), retries=int(pol.max_retries), life=ms(pol.max_lifetime),
                  by_subscriber=who)
+            return cid, msg, pol
+
+        async def send_on_connect(cid, msg, pol):
             try:
                 await w.objs["socket"].send(msg, pol)
                 w.ev("ret", id=cid, res="ok", val=[])
@@ -215,11 +219,15 @@ class World:
                     w.ev("deliver", who=who, hdr="shape_error", msg=list(str(ex)[:80].encode("ascii", "replace")))
                 await behave()
         elif kind == "connection":
-            async def sub(*, connected):
+            def sub(*, connected):
                 w.ev("notify", who=who, connected=bool(connected))
-                if sends and connected:
-                    await send_on_connect()
-                await behave()
+                pending = announce_send() if (sends and connected) else None
+
+                async def run():
+                    if pending:
+                        await send_on_connect(*pending)
+                    await behave()
+                return run()
         else:  # update subscribers: AirTouch (str id), AC (int), zone (int)
             async def sub(ident):
                 w.ev("cb", who=who, kind=kind, id=P.project(ident))
@@ -299,6 +307,22 @@ class World:
             return
         self.ev("peer_reset", c=tr.c)
         tr.peer_reset()
+
+    def op_pause(self, op):
+        tr = self._tr(op)
+        if tr is None or tr.lost:
+            self.ev("skipped", what="pause")
+            return
+        self.ev("paused", c=tr.c)
+        tr.pause()
+
+    def op_resume(self, op):
+        tr = self._tr(op)
+        if tr is None or tr.lost:
+            self.ev("skipped", what="resume")
+            return
+        self.ev("resumed", c=tr.c)
+        tr.resume()
 
     def op_arm_fault(self, op):
         tr = self._tr(op)
